@@ -421,9 +421,13 @@ def run(tier):
         key = json.dumps(sig, sort_keys=True)
         record = {"scenario": sc, "broken": list(v), "end": {x: y for x, y in r[-1].items() if x != "api"},
                   "api": r[-1].get("api"), "replay": sc}
-        if (v[0] in LIVENESS_RULES and key not in reported and ck.known.match(PID, sig) is None
-                and confirmed.get(v[0], 0) < 2):
-            # (once two signatures of a rule have been reproduced 3x, further ones of that rule are taken as is)
+        if v[0] in LIVENESS_RULES and key not in reported and ck.known.match(PID, sig) is None:
+            # every distinct signature is re-run; at most 8 confirmations per run (a broken tree produces many
+            # signatures: the first 8 confirmed ones are enough for the verdict)
+            if confirmed.get('#attempts', 0) >= 8:
+                ck.notes.append(f"not confirmed (confirmation budget used up): {v} in {sc}")
+                continue
+            confirmed['#attempts'] = confirmed.get('#attempts', 0) + 1
             if confirm(ck, sc, v[0], mode, dc, other):
                 confirmed[v[0]] = confirmed.get(v[0], 0) + 1
             else:
